@@ -422,6 +422,29 @@ fn cmd_check(env: &Env, prop: Prop, args: &[String]) -> i32 {
         wall,
         n_violating_scenarios
     );
+    // reach: the rare conditions this property cares about must actually have been hit
+    let required: &[&str] = match prop {
+        Prop::C01 => &["probe_break_with_nonempty_accumulator", "LEAF-FAIL_fired", "CB-FAIL_fired", "scenarios_with_duplicate_keys", "scenarios_with_exotic_values", "probe_two_or_more_failing_entries_in_one_object", "probe_try_from_failure_with_nonempty_accumulator"],
+        Prop::C02 => &["probe_two_or_more_independent_faults", "LEAF-FAIL_fired", "CB-FAIL_fired"],
+        Prop::C03 => &["break_answers_to_error", "break_answers_to_merge", "probe_break_at_depth_ge3", "probe_break_with_nonempty_accumulator", "probe_field_error_type_answered_break", "first_report_linkage_checked"],
+        Prop::C04 => &["handover_positions_checked", "probe_report_at_index_gt0", "break_answers_to_merge"],
+        Prop::C06 => &["SRC-ARITY_injected", "SRC-BADKEY_injected", "LEAF-FAIL_fired"],
+        Prop::C07 => &["SRC-NEARMISS_injected", "probe_swap_remove_moved_a_member"],
+        Prop::C08 => &["expected_missing_field_reports", "probe_missing_field_together_with_invalid_sibling", "SRC-DROP_injected", "SRC-NULL_injected"],
+        Prop::C09 => &["expected_unknown_key_reports", "x_spurious_pairs", "SRC-NEARMISS_injected"],
+        Prop::C10 => &["probe_unknown_tag_value", "probe_swap_remove_moved_a_member", "SRC-TAG_injected"],
+        Prop::C11 => &["CB-FAIL_fired", "LEAF-FAIL_fired", "probe_field_error_type_answered_break", "probe_try_from_failure_with_nonempty_accumulator"],
+        Prop::C12 => &["scenarios_with_duplicate_keys", "scenarios_with_exotic_values", "break_answers_to_error"],
+        Prop::C14 => &["parseback_checked", "parseback_at_root", "parseback_at_depth_ge3", "first_report_linkage_checked"],
+        Prop::C15 => &["x_perm_orders_compared", "x_perm_scenarios_with_all_orders", "probe_swap_remove_moved_a_member"],
+    };
+    let stuck: Vec<&&str> = required.iter().filter(|k| stats.counters.get(**k).copied().unwrap_or(0) == 0).collect();
+    if !stuck.is_empty() {
+        println!("WARNING: reach probes stuck at zero: {stuck:?}");
+        if exit == 0 && tier == "thorough" {
+            harness_error("a reach probe is stuck at zero in the thorough tier: the workload or fault mix must change");
+        }
+    }
     // a probe stuck at zero in the thorough tier is a harness problem, never a violation
     if exit == 0 && stats.nontrivial_fingerprints.len() < 2 {
         harness_error("fewer than two distinct non-trivial histories: the workload does not reach the property's subject");
